@@ -38,6 +38,8 @@ for it in reversed(json.load(sys.stdin)):      # opposite order: a rendering mus
             db = PyDBML(print_doc(it['doc'], it['fseed'], it['pinned']), allow_properties=it['model']['allowprops'])
         elif it['route'].startswith('morphed'):
             db = builder.build_morphed(it['model'], it['route'].split(':')[1].split('+'))
+        elif it['route'] == 'built_abstract':
+            db = builder.build_abstract(it['model'])
         else:
             db = builder.build(it['model'])
         out[str(it['tid'])] = hashlib.sha1(db.sql.encode('utf8')).hexdigest()
@@ -70,6 +72,8 @@ def _exec_chunk(items):
                 db = PyDBML(print_doc(it['doc'], it['fseed'], it['pinned']), allow_properties=m['allowprops'])
             elif it['route'].startswith('morphed'):
                 db = builder.build_morphed(m, it['route'].split(':')[1].split('+'))
+            elif it['route'] == 'built_abstract':
+                db = builder.build_abstract(m)
             else:
                 db = builder.build(m)
             rec['s0'] = pj.project_db(db)
@@ -199,7 +203,8 @@ def standard_main(prop: str, clauses: List[str], technique: str, rule: str, nont
         ms = docs.gen_models(lo, lo + n - 1, False, True, rep)
         for seed, dm in ms:
             # morphed: built from another content, rendered, then edited in place into this one (pv/builder.py)
-            for route in ('parsed', 'built', 'morphed:' + ('names', 'types', 'settings', 'refs', 'names+types+settings+refs')[seed % 5]):
+            for route in ('parsed', 'built' if seed % 3 else 'built_abstract',
+                          'morphed:' + ('names', 'types', 'settings', 'refs', 'names+types+settings+refs')[seed % 5]):
                 tid += 1
                 items[tid] = {'tid': tid, 'route': route, 'doc': dm['doc'], 'model': dm['model'], 'fseed': None, 'pinned': {},
                               'seed': seed}
